@@ -225,13 +225,18 @@ C04_TEMPLATES = {
     'enum_defaults': ['TYPE\n  e : (a, b)', ('alt', ['', ' := a', ' := c', ' := e#a', ' := x#a']), ';\n  f : e', ('alt', ['', ' := b', ' := c']), ';\nEND_TYPE\nFUNCTION_BLOCK fb\nVAR\n  v : f', ('alt', ['', ' := a', ' := zz']), ';\nEND_VAR\nEND_FUNCTION_BLOCK\n'],
 }
 
+def _all_k6_templates():
+    from . import C10 as K10
+    from .c02_templates import VERDICT_TEMPLATES
+    return dict(dict(K10.TEMPLATES, **{'rules_' + k: v['tpl'] for k, v in VERDICT_TEMPLATES.items()}), **C04_TEMPLATES)
+
 def _k6_job(job):
     name, prefixes = job
     from . import C10 as K10
     ctx = _CTX; part = Part()
-    tpl = dict(K10.TEMPLATES, **C04_TEMPLATES)[name]
+    tpl = _all_k6_templates()[name]
     P = ctx.program()
-    k_parse = P.find_fn('ironplc-parser', 'parse_program'); k_an = P.find_fn('ironplc-analyzer', 'stages::analyze')
+    k_parse = P.find_fn('ironplc-parser', 'parse_program'); k_an = P.find_fn('ironplc-analyzer', 'stages::analyze'); k_write = P.find_fn('ironplc-plc2plc', 'write_to_string')
     k_opt = [k for k in P.items if k[0] == 'ironplc-parser' and re.search(r'ParseOptions as (std::default::)?Default>::default|options::<impl at [^>]*>::default', k[1])]
     holder = {}; st = {}
     M = Machine(P, stubs=K10.dyn_lexer_stubs(ctx, holder), max_steps=800_000_000)
@@ -254,6 +259,8 @@ def _k6_job(job):
         if r.disc != 0: return 'rejected'
         st['stage'] = 'analyze'
         a = M.call_fn(k_an, [Ref(Cell(VecV([Ref(Cell(r.f[0]))])))])
+        st['stage'] = 'render'
+        w = M.call_fn(k_write, [Ref(Cell(r.f[0]))])
         return 'ok' if a.disc == 0 else 'diagnosed'
     def on_path(M, pr):
         part.paths += 1
@@ -262,7 +269,7 @@ def _k6_job(job):
         part.nontrivial += 1
         if pr.panic:
             where = st.get('stage'); msg = re.sub(r'[^a-z]+', '-', pr.panic.msg.lower())[:44].strip('-')
-            part.add('C04/K6/%s/%s/%s' % (name, where, msg), '%s panics on a %s program (template %s, shape %s): %s' % ('parse_program' if where == 'parse' else 'analyze', 'rejected-or-accepted', name, choice, pr.panic.msg[:80]),
+            part.add('C04/K6/%s/%s/%s' % (name, where, msg), '%s panics (template %s, shape %s): %s' % ({'parse': 'parse_program', 'analyze': 'analyze', 'render': 'write_to_string'}.get(where, where), name, choice, pr.panic.msg[:80]),
                      {'source': src, 'stage': where}, ('frontend_panic', (src,)))
         elif len(part.validate) < 1: part.validate.append(('frontend_panic', (src,)))
         if len(part.samples) < 1: part.samples.append({'template': name, 'shape': choice, 'outcome': pr.result if not pr.panic else 'panic'})
@@ -274,6 +281,9 @@ def _k6_job(job):
 def _replay_frontend_panic(src):
     def rp(ctx):
         r = ctx.replay({'cmd': 'analyze', 'sources': [src]})
+        if 'panic' not in r:
+            r2 = ctx.replay({'cmd': 'render', 'source': src})
+            if 'panic' in r2: r = r2
         return 'panic' in r, {'source': src[-300:], 'result': {k: str(v)[:200] for k, v in r.items() if k not in ('debug',)}}
     return rp
 
@@ -283,11 +293,12 @@ def k6(ctx, kr):
     _CTX = ctx
     from . import C10 as K10
     import itertools
-    TPL = dict(K10.TEMPLATES, **C04_TEMPLATES) if ctx.tier == 'thorough' else dict(C04_TEMPLATES, **{k: K10.TEMPLATES[k] for k in ('alias_type', 'var_kinds', 'literal_init', 'fb_call', 'function_call', 'case_statement', 'configuration_globals')})
+    ALL = _all_k6_templates()
+    TPL = ALL if ctx.tier == 'thorough' else dict(C04_TEMPLATES, **{k: ALL[k] for k in ('alias_type', 'var_kinds', 'literal_init', 'fb_call', 'function_call', 'case_statement', 'configuration_globals', 'rules_symvar_contexts', 'rules_const_rules', 'rules_enum_value')})
     names = list(TPL)
     n = sum(len(list(itertools.product(*[range(d) for d in K10._shapes(TPL[t])]))) for t in names)
-    kr.bounds = ('parse_program followed by stages::analyze on %d shapes of %d source templates (limits around 2^127 and 2^128, non-duration task intervals, priorities around 2^32, undeclared names in initialisers, empty and huge string lengths, '
-                 'plus round-trip templates of C10): every shape yields a library or diagnostics, never a panic' % (n, len(names)))
+    kr.bounds = ('parse_program, stages::analyze and write_to_string on %d shapes of %d source templates (limits around 2^127 and 2^128, non-duration task intervals, priorities around 2^32, undeclared names in initialisers, empty and huge string lengths, '
+                 'plus round-trip templates of C10 and rule templates of C02): every shape yields a library, diagnostics or rendered text, never a panic' % (n, len(names)))
     jobs = []
     for t in sorted(names, key=lambda t: -len(list(itertools.product(*[range(d) for d in K10._shapes(TPL[t])])))):
         dims = K10._shapes(TPL[t]); first = dims[0] if dims else 1
